@@ -1381,7 +1381,9 @@ class Vector():
 		if dtype is not None:
 			for value in appended:
 				dtype = dtype.promote_with(value)
-		return Vector(self._underlying + appended,
+		# list(): always build fresh storage.  tuple + () returns the very same tuple
+		# object, which would make the result share (alias) this vector's storage.
+		return Vector(list(self._underlying + appended),
 				dtype=dtype)
 
 
@@ -1415,7 +1417,7 @@ class Vector():
 		"""
 		# Convert other to Vector and concatenate with self
 		if isinstance(other, Iterable) and not isinstance(other, (str, bytes, bytearray)):
-			return Vector(tuple(other) + self._underlying,
+			return Vector(list(tuple(other) + self._underlying),  # list(): never reuse our own tuple
 				None,  # other doesn't have a default element
 				None,
 				False)
